@@ -180,10 +180,21 @@ class Eval(object):
         if g is None or not g.get('const') or 'init' not in g:
             return None
         idx, scale = p.var[0]
-        # significant index bits: strip constant-zero high part
-        k = T.width(idx)
-        while k > 0 and T.is_const(T.slice_(idx, k - 1, 1)) and T.const_val(T.slice_(idx, k - 1, 1)) == 0:
-            k -= 1
+        # the index is enumerated over the assignments of its SYMBOLIC bits only (constant bits are fixed),
+        # i.e. exactly over the table entries the code can reach
+        syms = []       # distinct 1-bit pieces
+        layout = []     # per index bit: ('c', v) or ('s', k)
+        for j in range(T.width(idx)):
+            b1 = T.slice_(idx, j, 1)
+            if T.is_const(b1):
+                layout.append(('c', T.const_val(b1)))
+            else:
+                if len(b1) != 1 or b1[0][0] == 'u':
+                    return None
+                if b1[0] not in syms:
+                    syms.append(b1[0])
+                layout.append(('s', syms.index(b1[0])))
+        k = len(syms)
         if k == 0 or k > 16:
             return None
         try:
@@ -191,11 +202,22 @@ class Eval(object):
         except Unsupported:
             return None
         total = T.width(tab) // 8
-        if not T.is_const(tab) or p.off < 0 or p.off + ((1 << k) - 1) * scale + nbytes > total:
+        if not T.is_const(tab):
             return None
         tv = T.const_val(tab)
         nb = nbytes * 8
-        entries = [(tv >> ((p.off + m * scale) * 8)) & ((1 << nb) - 1) for m in range(1 << k)]
+        entries = []
+        for asg in range(1 << k):
+            m = 0
+            for j, (kind, v) in enumerate(layout):
+                bit = v if kind == 'c' else (asg >> v) & 1
+                m |= bit << j
+            if m >= (1 << 63):
+                return None
+            off = p.off + m * scale
+            if off < 0 or off + nbytes > total:
+                return None
+            entries.append((tv >> (off * 8)) & ((1 << nb) - 1))
         self.lut_reads = getattr(self, 'lut_reads', [])
         self.lut_reads.append((p.base, k, nbytes))
         out = []
@@ -207,10 +229,10 @@ class Eval(object):
             found = None
             for i in range(k):
                 if all(col[m] == ((m >> i) & 1) for m in range(1 << k)):
-                    found = T.slice_(idx, i, 1)
+                    found = (syms[i],)
                     break
                 if all(col[m] == 1 - ((m >> i) & 1) for m in range(1 << k)):
-                    found = T.not_(T.slice_(idx, i, 1))
+                    found = T.not_((syms[i],))
                     break
             if found is None:
                 return None
@@ -559,6 +581,85 @@ class Eval(object):
             src, pas, mk = self.val(ops[0]), self.val(ops[2]), self.val(ops[3])
             n = T.width(src) // ew
             E[iid] = T.cat(*[T.sel(T.slice_(mk, i, 1), T.raw_op('x86.round', ew, T.slice_(src, i * ew, ew), attrs=(imm,)), T.slice_(pas, i * ew, ew)) for i in range(n)])
+        elif re.match(r'^llvm\.x86\.(sse41|avx)\.ptest(z|c|nzc)(\.256)?$', name):
+            a, b = self.val(ops[0]), self.val(ops[1])
+            kind = re.search(r'ptest(z|c|nzc)', name).group(1)
+            w = T.width(a)
+            z = T.icmp('eq', T.and_(a, b), T.const(w, 0))            # ZF
+            c = T.icmp('eq', T.and_(T.not_(a), b), T.const(w, 0))    # CF
+            r = {'z': z, 'c': c, 'nzc': T.and_(T.not_(z), T.not_(c))}[kind]
+            E[iid] = T.zext(r, ty.bits)
+        elif re.match(r'^llvm\.x86\.avx\.vtest(z|c|nzc)\.p[sd](\.256)?$', name):
+            a, b = self.val(ops[0]), self.val(ops[1])
+            kind = re.search(r'vtest(z|c|nzc)', name).group(1)
+            ew = 32 if '.ps' in name else 64
+            n = T.width(a) // ew
+            sa = T.cat(*[T.slice_(a, (i + 1) * ew - 1, 1) for i in range(n)])
+            sb = T.cat(*[T.slice_(b, (i + 1) * ew - 1, 1) for i in range(n)])
+            z = T.icmp('eq', T.and_(sa, sb), T.const(n, 0))
+            c = T.icmp('eq', T.and_(T.not_(sa), sb), T.const(n, 0))
+            r = {'z': z, 'c': c, 'nzc': T.and_(T.not_(z), T.not_(c))}[kind]
+            E[iid] = T.zext(r, ty.bits)
+        elif re.match(r'^llvm\.x86\.(ssse3\.phadd\.[wd]\.128|avx2\.phadd\.[wd]|ssse3\.phsub\.[wd]\.128|avx2\.phsub\.[wd])$', name):
+            a, b = self.val(ops[0]), self.val(ops[1])
+            ew = 16 if re.search(r'\.w(\.|$)', name) else 32
+            f = T.add if 'phadd' in name else T.sub
+            per = 128 // ew
+            out = []
+            for l in range(T.width(a) // 128):
+                for src in (a, b):
+                    for k in range(per // 2):
+                        out.append(f(T.slice_(src, l * 128 + (2 * k) * ew, ew), T.slice_(src, l * 128 + (2 * k + 1) * ew, ew)))
+            E[iid] = T.cat(*out)
+        elif re.match(r'^llvm\.x86\.(sse3|avx)\.(hadd|hsub)\.p[sd](\.256)?$', name):
+            # HADDPS/PD: within each 128-bit lane [a0+a1, a2+a3, b0+b1, b2+b3] (pd: [a0+a1, b0+b1])
+            a, b = self.val(ops[0]), self.val(ops[1])
+            ew = 32 if '.ps' in name else 64
+            opn = 'fadd' if 'hadd' in name else 'fsub'
+            per = 128 // ew
+            out = []
+            for l in range(T.width(a) // 128):
+                for src in (a, b):
+                    for k in range(per // 2):
+                        x = T.slice_(src, l * 128 + (2 * k) * ew, ew)
+                        y = T.slice_(src, l * 128 + (2 * k + 1) * ew, ew)
+                        out.append(T.raw_op(opn, ew, x, y))
+            E[iid] = T.cat(*out)
+        elif name.startswith('llvm.masked.store.'):
+            v, p, mk = self.val(ops[0]), self.val(ops[1]), self.val(ops[3])
+            vt = self.oty(ops[0])
+            ew = vt.elem.bits
+            for i in range(vt.n):
+                mb = T.slice_(mk, i, 1)
+                if T.is_const(mb) and T.const_val(mb) == 0:
+                    continue
+                q = Ptr(p.base, p.off + i * ew // 8, p.var)
+                fake = dict(inst)
+                fake['align'] = 1
+                x = T.slice_(v, i * ew, ew)
+                if not T.is_const(mb):
+                    try:
+                        old = self.load(q, ew // 8, {'align': 1, 'masked_probe': True})
+                        if q.base.startswith('arg:'):
+                            self.reads.pop()
+                    except Unsupported:
+                        old = T.undef(ew)
+                    x = T.sel(mb, x, old)
+                    fake['masked'] = T.fmt(mb, 2)
+                self.store(q, x, fake)
+        elif name.startswith('llvm.masked.load.'):
+            p, mk, pas = self.val(ops[0]), self.val(ops[2]), self.val(ops[3])
+            ew = ty.elem.bits
+            out = []
+            for i in range(ty.n):
+                mb = T.slice_(mk, i, 1)
+                if T.is_const(mb) and T.const_val(mb) == 0:
+                    out.append(T.slice_(pas, i * ew, ew))
+                    continue
+                if not T.is_const(mb):
+                    raise Unsupported('masked load with symbolic mask')
+                out.append(self.load(Ptr(p.base, p.off + i * ew // 8, p.var), ew // 8, {'align': 1}))
+            E[iid] = T.cat(*out)
         elif base in ('llvm.ctpop', 'llvm.bitreverse'):
             E[iid] = lanewise(lambda x: T.raw_op(base[5:], T.width(x), x), ops[0])
         elif base in ('llvm.ctlz', 'llvm.cttz'):
@@ -575,6 +676,16 @@ class Eval(object):
             w = T.width(ls[0])
             opn = {'add': 'add', 'mul': 'mul', 'and': 'and', 'or': 'or', 'xor': 'xor', 'smax': 'smax', 'smin': 'smin',
                    'umax': 'umax', 'umin': 'umin'}.get(red)
+            if red in ('fadd', 'fmul'):
+                # start value op (lane0 op (lane1 ...)) in some association order; -0.0 is the exact additive identity
+                st = self.val(ops[0])
+                acc = None
+                if not (red == 'fadd' and T.is_const(st) and T.const_val(st) == 1 << (w - 1)):
+                    acc = st
+                for x in ls:
+                    acc = x if acc is None else T.raw_op(red, w, acc, x)
+                E[iid] = acc
+                return
             if opn is None:
                 raise Unsupported(name)
             acc = ls[0]
@@ -625,6 +736,12 @@ class Eval(object):
         elif re.match(r'^llvm\.x86\.(sse2\.pmovmskb\.128|avx2\.pmovmskb|sse\.movmsk\.ps|sse2\.movmsk\.pd|avx\.movmsk\.p[sd]\.256)$', name):
             ls = lanes_of(ops[0])
             E[iid] = T.cat(*([T.topbit(l) for l in ls] + [T.const(ty.bits - len(ls), 0)]))
+        elif name.startswith('ext_f_'):
+            # the opaque binary functor handed to xsimd::reduce: declared lane-wise by the wrapper generator
+            ew = int(name[7:])
+            a, b = self.val(ops[0]), self.val(ops[1])
+            n = T.width(a) // ew
+            E[iid] = T.cat(*[T.raw_op('lanewise:ext_f', ew, T.slice_(a, i * ew, ew), T.slice_(b, i * ew, ew)) for i in range(n)])
         elif name.startswith('llvm.'):
             # unknown intrinsic: opaque whole-value term (sound: nothing is assumed about it)
             self.opaque(inst, ty, ops, name)
